@@ -138,3 +138,8 @@ def entries(tier, tag=None):
             continue
         out.append((p, strat, tl))
     return out
+
+
+def posix_ok(p):
+    """Patterns the POSIX ERE syntax accepts (no Perl classes, lazy quantifiers, flags, \\b)."""
+    return not re.search(r"\\[dDwWsSbBzA]|\?\?|\*\?|\+\?|\}\?|\(\?", p)
